@@ -1515,6 +1515,7 @@ func c4EmptyInsertProbe(ctx *core.Ctx, t c4dictType) {
 //	malformed-bytes <hex>
 //	dict-preloaded-dup <type> <init tokens> <value tokens>     (tokens: decimal bit patterns / hex)
 //	codec <plain|bss> <type> <tokens>
+//	dict-session <type> <init tokens> <calls: r | i=<tokens>, separated by ;>
 func (w *c4worker) replayCorpusLine(line string) {
 	f := strings.Fields(line)
 	if len(f) == 0 || strings.HasPrefix(f[0], "#") {
@@ -1574,11 +1575,28 @@ func (w *c4worker) replayCorpusLine(line string) {
 	case f[0] == "codec" && len(f) == 4:
 		k := kindOf(f[2])
 		w.codecCase(f[1], k, parse(k, f[3]))
+	case f[0] == "dict-session" && len(f) == 4: // dict-session <type> <init> <ops: r | i=<values>, separated by ;>
+		for _, t := range c4DictTypes() {
+			if t.name == f[1] {
+				s := c4session{t: t}
+				if f[2] != "-" {
+					s.init = parse(t.k, f[2])
+				}
+				for _, op := range strings.Split(f[3], ";") {
+					if op == "r" {
+						s.ops = append(s.ops, c4sessOp{reset: true})
+					} else if strings.HasPrefix(op, "i=") {
+						s.ops = append(s.ops, c4sessOp{batch: parse(t.k, op[2:])})
+					}
+				}
+				w.sessionCase(s)
+			}
+		}
 	}
 }
 
 func RunC04Plain(ctx *core.Ctx) {
-	ctx.SetRule("C04/plain: (encoding in {PLAIN, BYTE_STREAM_SPLIT}) x physical type x value list (boundary pools incl. NaN payloads/-0.0/extremes, small alphabets, noise; lengths 0..9, 15..17, 31..33, 63..65, 127..129, 255..257, 511..513, 1023..1025) x dirty destination; dictionary cases = type x pre-load x batch split x values; malformed PLAIN BYTE_ARRAY streams; Go PLAIN/BYTE_STREAM_SPLIT decoders on arbitrary byte strings (any multiple of the width is conformant) into dirty destinations; C04/dictpage: type x dictionary (1..300 distinct entries) x index page written by the harness (declared width needed..32, random RLE/bit-packed segmentation, padded last group; conformant / short / id outside the dictionary) x recycled index buffer (capacity 0, <n, =n, >n; content last id / beyond / random / zero), and hand-assembled files of 1..4 data pages read three times; distinct by canonical input text; non-trivial = at least 2 values (dictionary: at least 2 distinct values and at least one repeat; malformed: at least 5 bytes; decoders: at least 2 widths of bytes; dictpage: num_values >= 2; files: at least 2 data pages)")
+	ctx.SetRule("C04/plain: (encoding in {PLAIN, BYTE_STREAM_SPLIT}) x physical type x value list (boundary pools incl. NaN payloads/-0.0/extremes, small alphabets, noise; lengths 0..9, 15..17, 31..33, 63..65, 127..129, 255..257, 511..513, 1023..1025) x dirty destination; dictionary cases = type x pre-load x batch split x values; malformed PLAIN BYTE_ARRAY streams; Go PLAIN/BYTE_STREAM_SPLIT decoders on arbitrary byte strings (any multiple of the width is conformant) into dirty destinations; C04/dictpage: type x dictionary (1..300 distinct entries) x index page written by the harness (declared width needed..32, random RLE/bit-packed segmentation, padded last group; conformant / short / id outside the dictionary) x recycled index buffer (capacity 0, <n, =n, >n; content last id / beyond / random / zero), and hand-assembled files of 1..4 data pages read three times; C04/dictreset: dictionary type x (empty | pre-loaded) x session of 2..5 generations separated by Reset, 1..3 Insert batches each (0,1,..24 values, one batch around 255..2300), all drawn from windows of ONE alphabet of 1..700 values, and writer sessions: dict column type x flat/repeated x {Flush, MaxRowsPerRowGroup, reused GenericBuffer, Writer.Reset} x 2..4 row groups over one alphabet of 2..30 values; distinct by canonical input text; non-trivial = at least 2 values (dictionary: at least 2 distinct values and at least one repeat; malformed: at least 5 bytes; decoders: at least 2 widths of bytes; dictpage: num_values >= 2; files: at least 2 data pages; sessions: at least one Reset and a value repeated from an earlier generation / row group)")
 	nw := runtime.GOMAXPROCS(0)
 	if nw > 12 {
 		nw = 12
@@ -1589,7 +1607,7 @@ func RunC04Plain(ctx *core.Ctx) {
 	plainKinds := []c4kind{c4Bool, c4Int32, c4Int64, c4Int96, c4Float, c4Double, c4Bytes, c4FLBA(1), c4FLBA(2), c4FLBA(3), c4FLBA(5), c4FLBA(12), c4FLBA(16), c4FLBA(17), c4FLBA(33)}
 	bssKinds := []c4kind{c4Int32, c4Int64, c4Float, c4Double, c4FLBA(1), c4FLBA(2), c4FLBA(3), c4FLBA(4), c4FLBA(5), c4FLBA(7), c4FLBA(8), c4FLBA(12), c4FLBA(16), c4FLBA(17), c4FLBA(33)}
 	dictTypes := c4DictTypes()
-	perKind := ctx.Scale(2600, 4000) // cases per (encoding, type) for the numeric kinds, summed over workers
+	perKind := ctx.Scale(2600, 3200) // cases per (encoding, type) for the numeric kinds, summed over workers
 	maxLen := ctx.Scale(1100, 1600)
 
 	// corpus first (one worker), then the deterministic probes
@@ -1678,7 +1696,7 @@ func RunC04Plain(ctx *core.Ctx) {
 			}
 			lap("bools")
 			// malformed BYTE_ARRAY streams
-			for i := 0; i < share(ctx.Scale(6000, 30000)); i++ {
+			for i := 0; i < share(ctx.Scale(6000, 20000)); i++ {
 				s, origin := w.malformedGen()
 				w.malformedCase(s, origin)
 			}
@@ -1700,7 +1718,7 @@ func RunC04Plain(ctx *core.Ctx) {
 			lap("decoders")
 			// dictionaries
 			for _, t := range dictTypes {
-				for i := 0; i < share(ctx.Scale(1200, 3000)); i++ {
+				for i := 0; i < share(ctx.Scale(1200, 2000)); i++ {
 					c := w.dictGen(t, ctx.Scale(2600, 4000))
 					if wi == 0 && i == 0 {
 						ctx.Sample(map[string]any{"dictionary": c4short(c.canon())})
